@@ -203,15 +203,14 @@ def replay_mirsym(prop, unit, root, replays):
     models = [f.get("model") for f in unit.get("model", [])]
     rp = os.path.join(VERIF, "evidence", "replays", f"{prop}-{unit['name'].replace('/', '_')}.txt")
     os.makedirs(os.path.dirname(rp), exist_ok=True)
+    from . import replay_more
     if unit["name"] in LIFECYCLE_UNITS:
         ok, detail = replay_lifecycle(prop, unit, root, replays, models)
-        if ok is not True and unit["name"] == "teardown_panic/report":
-            from . import replay_more
+        if ok is not True and (unit["name"] in replay_more.GENERATORS or unit["name"] in replay_more.BATTERIES):
             ok2, d2 = replay_more.replay(prop, unit, root, models)
             if ok2 is not None:
                 ok, detail = ok2, (detail or "") + "\n" + (d2 or "")
     else:
-        from . import replay_more
         ok, detail = replay_more.replay(prop, unit, root, models)
     with open(rp, "w") as f:
         f.write(f"property={prop}\nunit={unit['name']} (MIR symbolic execution + z3)\nfailing queries:\n")
